@@ -43,11 +43,13 @@ namespace occa {
     if (!modeStreamTag) {
       return;
     }
-    modeStreamTag->removeStreamTagRef(this);
+    // Whether this was the last reference is decided together with its
+    // removal: the object may be gone as soon as another thread removes its own
+    const bool needsFree = modeStreamTag->removeStreamTagRef(this);
 #ifdef LIBOCCA_OCCA_VERIF
     verif::yield(verif::ptAfterRemoveStreamTagRef);
 #endif
-    if (modeStreamTag->modeStreamTag_t::needsFree()) {
+    if (needsFree) {
       free();
     }
   }
